@@ -43,9 +43,10 @@ PROPS["C07"] = {
 PROPS["C12"] = {
     "quick_timeout": 600,
     "functions": ["request::nonce_from_rfc_request", "request::get_supported_version", "RtMessage::from_bytes", "RtMessage::get_field",
-                  "Version::wire_bytes"],
-    "bounds": "version lists of 0..=6 arbitrary 32-bit words (all 2^(32k) lists per k), SRV absent / 32 arbitrary bytes against an "
-              "arbitrary expected value / wrong lengths 0, 28, 36; concrete request layout {VER, [SRV], NONC}",
+                  "Version::wire_bytes", "OnlineKey::make_srep (VER/VERS)"],
+    "bounds": "version scan alone: lists of 0,1,2,4,6 arbitrary 32-bit words; framed requests with concrete layout {VER, [SRV], NONC}: "
+              "lists of 0..=5 arbitrary words (6 thorough), SRV absent / wrong lengths 0, 4, 28 (32 arbitrary bytes vs arbitrary or fixed "
+              "expected value, 36: thorough), nonce lengths 28/32/36/64",
     "outside": "version lists longer than 6 words; other tag layouts than {VER,[SRV],NONC} (covered for <= 3 fields by c07_rfc)",
     "models": COMMON_MODELS,
     "assumptions": ["CBMC/Kani translation of Rust MIR is trusted"],
@@ -89,7 +90,7 @@ PROPS["C04"] = {
     "functions": ["MerkleTree::new", "MerkleTree::push_leaf", "MerkleTree::compute_root", "MerkleTree::get_paths",
                   "MerkleTree::root_from_paths", "MerkleTree::reset", "MerkleTree::hash_leaf", "MerkleTree::hash_nodes",
                   "MerkleTree::finalize_output"],
-    "bounds": "quick: 1..3 leaves (thorough: ..5) of 0/4/8 symbolic bytes, one concrete position per harness, both hash profiles; "
+    "bounds": "quick: 1..2 leaves (3 for the reset invariant; thorough: ..5) of 0/4/8 symbolic bytes, one concrete position per harness, both hash profiles; stray trailing path bytes (1, 16, 63); "
               "binding for 2 (thorough 3) pairwise distinct leaves against: any other in-range index, any other leaf, any single "
               "changed path byte, any appended element, removed last element; reuse for batch pairs (3,2), (2,3) (thorough (1,3), (4,1))",
     "outside": "leaf counts above 5 (same level recursion; not proved), leaves longer than 8 bytes, sequences of more than two batches",
@@ -195,17 +196,22 @@ PROPS["C03"] = {
 }
 
 PROPS["C16"] = {
-    "functions": ["FileConfig::new", "EnvironmentConfig::new", "config::is_valid_config", "ServerConfig getters"],
-    "bounds": "file source: for each of port, batch_size, status_interval, health_check_port, fault_percentage, num_workers one harness "
-              "with that value any i64 (all 2^64) and the others fixed; environment source: each documented variable name with an "
-              "in-range value",
+    "functions": ["FileConfig::new", "config::file::int_setting", "EnvironmentConfig::new", "config::is_valid_config", "ServerConfig getters", "MemoryConfig"],
+    "bounds": "file loader: for each of port, batch_size, status_interval, health_check_port, fault_percentage, num_workers one harness "
+              "with that value any i64 (all 2^64) and the others fixed (accepted => getters equal the written values); validator: "
+              "is_valid_config on a MemoryConfig with port any u16, batch_size/fault_percentage any u8, num_workers any usize; "
+              "environment: each documented variable name with an in-range value, and port/batch_size/fault_percentage with any "
+              "value 0..=999999 (six symbolic decimal digits)",
     "outside": "the YAML parser itself (model crate returns the parsed document), seed strings of wrong alphabet/length, unknown-key "
                "rejection, kms_protection and client_stats/persistence_directory (string matching and file system), string-to-integer "
                "parsing of environment values beyond the concrete values used",
     "models": ["yaml-rust replaced by /verif/shims/yaml-model (load_from_str returns the document installed by the harness; the replay "
                "writes a real file and uses the real parser)",
-               "File::open / read_to_string / OwnedFd drop / thread::available_parallelism stubbed; ServerConfig::udp_socket_addr stubbed to Ok "
-               "(formats and parses a socket address; not the subject)",
+               "File::open / read_to_string / OwnedFd drop / thread::available_parallelism stubbed; alloc::fmt::format and "
+               "<SocketAddr as FromStr>::from_str stubbed (udp_socket_addr formats and parses an address; not the subject); "
+               "data_encoding::Encoding::decode stubbed (the seed text is not the subject; the real decode forces an unwind bound at "
+               "which the recursive drop glue of io::Error does not finish)",
+               "loader and validator are separate obligations (FileConfig::new; is_valid_config on MemoryConfig): composing them is an argument",
                "std::env::var stubbed: returns the value the harness assigned to that exact variable name, NotPresent otherwise"],
     "assumptions": ["str::parse::<uN> is exact or fails"],
     "quick_timeout": 600,
